@@ -346,6 +346,11 @@ def check_c14(case, rec, m, tally):
         oracle.append(dict(what='portfolio construction ran at %r; scheduled instants past burn-in are %r (unexpected %r, missing %r)' % (
             got_alloc[:6], want_alloc[:6], extra[:4], missing[:4]), key='rebalance-instants'))
     for a in rec['allocs_tap']:
+        if a['orders'] is not None and a['alloc'] is None:
+            oracle.append(dict(what='portfolio construction ran at %r (held %r) and returned, but recorded no target allocation' % (a['time'], a['held']),
+                               key='allocation-record-missing'))
+            break
+    for a in rec['allocs_tap']:
         if a['alloc_time'] is not None and a['alloc_time'] != a['time']:
             oracle.append(dict(what='allocation record dated %r for a rebalance at %r' % (a['alloc_time'], a['time']), key='allocation-date'))
     first = want_alloc[0] if want_alloc else None
@@ -692,6 +697,13 @@ def check_c18(case, rec, hash_seeds, rng, fresh=None):
     runs['after-an-unrelated-session-with-the-same-tickers'] = k7_real.digest(rec2b)[0]
     rec2 = k7_real.run_session(case)
     runs['same-process-again'] = k7_real.digest(rec2)[0]
+    # one universe object serving two sessions in a row
+    try:
+        uni_obj = k7_real.make_universe(case['universe'])
+        k7_real.run_session(case, universe=uni_obj)
+        runs['universe-object-reused-second-session'] = k7_real.digest(k7_real.run_session(case, universe=uni_obj))[0]
+    except Exception:
+        pass
     d = tempfile.mkdtemp(prefix='qsv_k7_')
     try:
         k2.write_csvs(case['market'], d)
@@ -866,7 +878,7 @@ def run_batch(prop, tier, rng, cases, n_corpus):
             if i == 0:
                 c18_seeds = [rng.randrange(1, 10 ** 6) for _ in range(6 if tier == 'quick' else 10)]
                 c18_fresh = batch_fresh_digests(cases, c18_seeds)
-            if i < (12 if tier == 'quick' else 10 ** 9):
+            if i < (24 if tier == 'quick' else 10 ** 9):
                 # in-process relations (another session first, repeats, a re-used data source) and the fresh interpreters
                 oo, nruns = check_c18(c, r, c18_seeds, rng, fresh={hs: c18_fresh[hs][i] for hs in c18_seeds})
             else:
